@@ -104,6 +104,9 @@ def scenarios():
     S('cif_pktitr_next_packet (new packet)', 'itr.next I0', setup=it, modifies=False, obs=[], after=fin, same_after_retry=False, iterator=True)
     S('cif_pktitr_next_packet (into existing packet)', 'itr.next I0 P0', setup=it, modifies=False, obs=['pkt.dump P0'], after=fin, same_after_retry=False, iterator=True)
     S('cif_pktitr_next_packet (second)', 'itr.next I0 P0', setup=it + ['itr.next I0'], modifies=False, obs=['pkt.dump P0'], after=fin, same_after_retry=False, iterator=True)
+    S('cif_pktitr_next_packet (into a packet lacking two of the items)', 'itr.next I0 P1', setup=it + ['pkt.create P1 1 %s' % u('_b')], modifies=False, obs=['pkt.dump P1'], after=fin, same_after_retry=False, iterator=True)
+    S('cif_pktitr_next_packet (into an empty packet)', 'itr.next I0 P1', setup=it + ['pkt.create P1 0'], modifies=False, obs=['pkt.dump P1'], after=fin, same_after_retry=False, iterator=True)
+    S('cif_pktitr_next_packet (into a packet of another loop)', 'itr.next I0 P1', setup=it + ['pkt.create P1 2 %s %s' % (u('_fl'), u('_zz')), 'pkt.set P1 %s V2' % u('_fl')], modifies=False, obs=['pkt.dump P1'], after=fin, same_after_retry=False, iterator=True)
     S('cif_pktitr_next_packet (NULL)', 'itr.next I0 -', setup=it, modifies=False, obs=[], after=fin, same_after_retry=False, iterator=True)
     S('cif_pktitr_update_packet', 'itr.update I0 P1', setup=it + ['itr.next I0', 'pkt.create P1 2 %s %s' % (u('_b'), u('_c')), 'pkt.set P1 %s V3' % u('_b'), 'pkt.set P1 %s V1' % u('_c')],
       obs=[], after=['itr.close I0', 'dump C0', 'autocommit C0'], iterator=True)
